@@ -29,11 +29,11 @@ def _vec_close(a, b):
 
 def check(case, ctx):
     kind = case["kind"]
-    W = np.array(case["W"])
+    W = gen.layout(np.array(case["W"]), case.get("order"))
     n = len(W)
     fails = []
     off = ~np.eye(n, dtype=bool)
-    Wfl = W.astype(float)
+    Wfl = gen.layout(W.astype(float), case.get("order"))
     Lf = og.to_fraction_lengths(Wfl)
     BCx, EBCx, D, sig = og.betweenness_exact(Lf)
     BC = np.array([float(x) for x in BCx])
@@ -107,7 +107,7 @@ def check(case, ctx):
 @st.composite
 def cases(draw, nmax, kinds):
     c = draw(c03.cases(nmax, kinds))
-    return {"kind": c["kind"], "W": c["W"]}
+    return {"kind": c["kind"], "W": c["W"], "order": c.get("order", "C")}
 
 
 _SPACES = {}
